@@ -123,16 +123,19 @@ func (cx *Connection) Write(p []byte) (n int, err error) {
 }
 
 // Wrap wraps conn in a new Connection based on cx (reusing
-// cx's existing buffer and context). This is useful after
+// cx's existing context). This is useful after
 // a connection is wrapped by a package that does not support
 // our Connection type (for example, `tls.Server()`).
+//
+// conn is expected to read from cx, so bytes that are still buffered
+// in cx reach the new Connection through conn; the new Connection
+// therefore starts with an empty buffer of its own. Sharing cx's
+// buffer would deliver those bytes twice and out of order.
 func (cx *Connection) Wrap(conn net.Conn) *Connection {
 	return &Connection{
 		Conn:         conn,
 		Context:      cx.Context,
 		Logger:       cx.Logger,
-		buf:          cx.buf,
-		offset:       cx.offset,
 		matching:     cx.matching,
 		bytesRead:    cx.bytesRead,
 		bytesWritten: cx.bytesWritten,
